@@ -165,10 +165,10 @@ fn sweep_page<S: PageSize>(r: &mut Rep, a: &Args) {
         }
         let cset: &[usize] = if a.thorough() && small.binary_search(&s).is_ok() { &big } else { &cs };
         for &n in cset {
-            step_page::<S>(r, s, n);
+            guarded(r, &format!("C05|Page<{}>|unexpected-panic", S::DEBUG_STR), || format!("page {} {:#x} {:#x}", S::DEBUG_STR, s, n), |r| step_page::<S>(r, s, n));
         }
         for &t in &all {
-            between_page::<S>(r, s, t);
+            guarded(r, &format!("C05|Page<{}>|unexpected-panic", S::DEBUG_STR), || format!("pbetween {} {:#x} {:#x}", S::DEBUG_STR, s, t), |r| between_page::<S>(r, s, t));
         }
     }
 }
@@ -209,10 +209,10 @@ pub fn run(a: &Args) {
         }
         let cset: &[usize] = if a.thorough() && small.binary_search(&s).is_ok() { &big } else { &cs };
         for &n in cset {
-            step_virt(&mut r, s, n);
+            guarded(&mut r, "C05|VirtAddr|unexpected-panic", || format!("virt {:#x} {:#x}", s, n), |r| step_virt(r, s, n));
         }
         for &t in &all {
-            between_virt(&mut r, s, t);
+            guarded(&mut r, "C05|VirtAddr|unexpected-panic", || format!("between {:#x} {:#x}", s, t), |r| between_virt(r, s, t));
         }
     }
     sweep_page::<Size4KiB>(&mut r, a);
@@ -224,7 +224,7 @@ pub fn run(a: &Args) {
             continue;
         }
         for n in 0..=1024usize {
-            step_index(&mut r, i, n);
+            guarded(&mut r, "C05|PageTableIndex|unexpected-panic", || format!("index {} {:#x}", i, n), |r| step_index(r, i, n));
         }
         for n in [usize::MAX, usize::MAX - 1, 1 << 16, (1 << 16) + 1, 1 << 32, 65535 - i as usize, 65536 - i as usize] {
             step_index(&mut r, i, n);
